@@ -2,6 +2,7 @@ package ksim
 
 import (
 	"fmt"
+	"strings"
 
 	appsv1 "k8s.io/api/apps/v1"
 	corev1 "k8s.io/api/core/v1"
@@ -93,12 +94,20 @@ func (o *faultOracle) OnWrite(s *Sim, w *Write) {
 				if _, ok := wl.GetAnnotations()[inProgressAnno]; ok {
 					residue = append(residue, "workload still marked in-progress")
 				}
-				if controlledByUID(wl) != "" {
-					residue = append(residue, "workload still under BatchRelease control")
+				if uid := controlledByUID(wl); uid != "" {
+					r := "workload still under BatchRelease control"
+					if s.Flags["br-completed-claim-not-seen/"+uid] {
+						r += " (claim-not-seen)" // follow-up of the known B3/F1 claim-not-seen finding: that BatchRelease is gone already
+					}
+					residue = append(residue, r)
 				}
 			}
 			for _, r := range residue {
-				s.Violate("C18", "F1-finalizer", "F1/rollout/"+fam+"/"+firstWords(r, 3), w.Seq, "Rollout finalizer removed although cleanup is incomplete: %s", r)
+				tag := ""
+				if strings.Contains(r, "(claim-not-seen)") {
+					tag = "/claim-not-seen"
+				}
+				s.Violate("C18", "F1-finalizer", "F1/rollout/"+fam+"/"+firstWords(r, 3)+tag, w.Seq, "Rollout finalizer removed although cleanup is incomplete: %s", r)
 			}
 		}
 	case gkBR:
